@@ -151,6 +151,8 @@ def make_h(tier):
         at_end = ctx.flag("run_at_end_of_last_file") if lang == "python" else False
         minocc = ctx.int("min_occurrences", 1)
         decoys = ctx.flag("decoy_files_with_same_lines_in_other_order") if (style == "plain" or not quick) else False
+        naming = ctx.pick("file_naming", ("distinct-names-one-directory", "same-name-in-different-directories")) \
+            if (style in ("plain", "method") or not quick) else "distinct-names-one-directory"
         files = {}
         for t in layout.replace("-only-once", "").split("+"):
             files[t] = files.get(t, 0) + 1
@@ -164,6 +166,9 @@ def make_h(tier):
                 L, occ = build_file(lang, t.lower(), places, r, style if i == 0 else "plain",
                                     run_at_end=at_end and i == len(files) - 1)
                 p = d / f"mod_{t.lower()}{ext}"
+                if naming != "distinct-names-one-directory":
+                    p = d / f"pkg_{t.lower()}" / f"helpers{ext}"
+                    p.parent.mkdir()
                 p.write_text("\n".join(L) + "\n")
                 occs[str(p)] = occ
                 texts[str(p)] = L
@@ -420,7 +425,8 @@ def obligations(tier):
                       "TypeScriptDuplicateAnalyzer.analyze", "token_hasher.*", "DuplicateStorage/cache (sqlite)", "ViolationGenerator.generate_violations/_collect_violations/_meets_min_occurrences",
                       "ViolationDeduplicator.*", "ViolationFilter.*", "DRYViolationBuilder.*"],
            bounds="min_occurrences unbounded integer >= 1 (symbolic to the end); forked: language (3), window 2..%d, run length 1..%d, file layouts (%s), "
-                  "style of the first occurrence (plain/indented/commented+blank/extra spaces/trailing comment), offset"
+                  "style of the first occurrence (plain/indented/commented+blank/extra spaces/trailing comment), offset, "
+                  "file naming (distinct names in one directory / one file name in different directories)"
                   % ((4, 5, "2-3 files, 1-3 places") if tier == "quick" else (5, 7, "2-4 files, 1-4 places")),
            timeout=900 if tier == "quick" else 3000, workers=14, must_cover=("reported", "silent")),
         Ob(name="K1-interval-logic-symbolic-lines", engine="pathex", harness=h_intervals,
